@@ -41,6 +41,8 @@ use crate::{
 };
 
 mod remote_state;
+#[cfg(feature = "verif-hooks")]
+pub(crate) use remote_state::verif_path_state;
 
 // TODO: use this
 // /// Number of endpoints that are inactive for which we keep info about. This limit is enforced
